@@ -874,6 +874,18 @@ class Engine:
             raise Panic('index out of bounds')
         if all(type(x) is Int and type(x.v) is int for x in items):
             ty = items[0].ty
+            # tables that are the identity except for a few entries (Latin-1, DEC graphics): an if-then-else
+            # chain over the exceptions is far cheaper for the solver than an array select
+            exc = [(k, x.v) for k, x in enumerate(items) if x.v != k]
+            if len(exc) <= 64 and BITS[ty] <= 64:
+                ib = bv(iv)
+                w = BITS[ty]
+                isz = ib.size()
+                base = ib if isz == w else (z3.Extract(w - 1, 0, ib) if isz > w else z3.ZeroExt(w - isz, ib))
+                r = base
+                for k, val in exc:
+                    r = z3.If(ib == z3.BitVecVal(k, isz), z3.BitVecVal(val, w), r)
+                return Int(ty, r)
             arr = self.p.const_cache.get(('z3arr', id(seq)))
             if arr is None:
                 arr = z3.K(z3.BitVecSort(64), z3.BitVecVal(0, BITS[ty]))
